@@ -6,7 +6,7 @@ LEVEL = "proof"
 
 
 def components():
-    return [comps_sorted.RbStatic(), comps_sorted.LydsApi()]
+    return [comps_sorted.RbStatic(), comps_sorted.LydsApi(), comps_sorted.SibApi()]
 
 
 def oracles_():
@@ -16,7 +16,8 @@ def oracles_():
 TRUSTED = [
     "impl/t_sorted.c read-only checker of the red-black tree / sibling links / lyds_tree metadata placement "
     "(link-level faithfulness of the zipper model is tied by this checker, not proved)",
-    "tools/props/comps_sorted.py Python list models SeqModel / SibModel (judges of the oracles sorted-order, sibling-order) and "
+    "tools/props/comps_sorted.py Python list models SeqModel / SibModel (judges of the oracles sorted-order, sibling-order, and "
+    "witness of the T2 component sib) and "
     "the invariant checker of impl/lyx.c (oracle edit-history)",
 ]
 
@@ -33,8 +34,8 @@ ASSUMPTIONS = [
 ]
 
 MANIFEST = {
-    "text": "PROVED (Coq, Properties_C04_sorted.v, all closed under the global context) for ONE system-ordered (leaf-)list and an "
-            "ARBITRARY total preorder as compare callback. (a) red-black tree of src/tree_data_sorted.c, transcribed branch by branch "
+    "text": "PROVED (Coq, Properties_C04_sorted.v and Properties_C04_siblings.v, all closed under the global context); (a), (b) for "
+            "ONE system-ordered (leaf-)list and an ARBITRARY total preorder as compare callback. (a) red-black tree of src/tree_data_sorted.c, transcribed branch by branch "
             "(rb_insert_node/rb_insert_color, rb_remove/rb_remove_color, rb_find, rb_prev/rb_next; parent pointers as a zipper; unchecked "
             "dereferences answer None): in-order walk after insert = stable insert, after remove = walk without that element "
             "(C04_rb_inorder_insert, C04_rb_inorder_remove); search order, black root, no red-red, equal black height are preserved and "
@@ -51,24 +52,39 @@ MANIFEST = {
             "C04_lyd_merge_skip_refuted); lyd_unlink_siblings = lyds_split (C04_lyds_split_spec: exact prefix / remainder); "
             "lyd_insert_child/sibling of several nodes = lyds_merge with lyds_merge_nodes1/2/3 (C04_lyds_merge_spec: stable sorted "
             "merge, nothing lost, for a sorted target when only the source has a tree; Example C04_lyds_merge_nodes2_regression for "
-            "cefb23b). Premises are satisfiable: C04_int_order_instance, C04_sorted_history_int, C04_hypotheses_satisfiable. "
+            "cefb23b). (c) ALL children of one parent (Siblings.v, Properties_C04_siblings.v; a sibling = (schema index in lys_getnext "
+            "order with choices/cases flattened | opaque, key, id)): lyd_insert_node(DEFAULT) with both anchor searches of "
+            "lyd_insert_get_next_anchor (walk over the siblings / hash lookups of the following schema nodes) and the fallback before "
+            "trailing opaque nodes puts a node into canonical siblings exactly at its canonical position - behind every sibling that is "
+            "not greater, data before opaque, opaque last -, provided the hash walk reaches every schema index present "
+            "(C04_sib_insert_spec); a successful lyd_insert_after/before of a DATA node next to a DATA sibling (user-ordered, same "
+            "schema node, user-ordered lists not system-ordered) puts it directly behind / in front of the sibling incl. first<->last "
+            "wrap-around, keeps all other siblings in order and canonical (C04_sib_move_spec); histories of creations, such moves and "
+            "removals stay canonical = schema order, user order as established, opaque last (C04_sib_history). Regression Examples for "
+            "the seeded changes C04-8 / C04-3 / C04-4: C04_sib_choice_anchor_regression, C04_sib_opaque_last_regression, "
+            "C04_sib_wraparound_regression. Premises are satisfiable: C04_int_order_instance, C04_sorted_history_int, C04_hypotheses_satisfiable. "
             "TIED by T2 (extracted model vs C, white-box driver t_sorted.c): the static rb_* functions, and the public API on "
             "int8/string/decimal64/union leaf-lists and 1-/2-key lists, top level and in a container, with and without neighbours "
             "(lyd_new_term/lyd_new_list/lyd_new_path, lyd_insert_child/sibling, LYD_INSERT_NODE_LAST appends, lyd_unlink_tree, "
             "lyd_free_tree, lyd_unlink_siblings, lyd_dup_siblings/lyd_dup_single, lyd_merge_tree/lyd_merge_siblings, "
             "lyd_find_sibling_val), comparing after EVERY call the sibling order, the exact tree shape with colours, the metadata "
             "owner and a read-only invariant check; exhaustive short scripts over 4 keys plus long random scripts. "
+            "The same for mode `sib` (component sib): leaves, a system-ordered leaf-list, a user-ordered list and leaf-list (three of "
+            "them inside a choice/case), opaque nodes, container (hash table from 4 children) and top level: create, "
+            "lyd_insert_after/before, free, unlink, re-insert; sibling order compared with Siblings.v after every call. "
             "EXPLORED ONLY, no proof: oracle edit-history (random histories of create by path, free, change value incl. keys, "
             "unlink + re-insert, merge, apply diff, add implicit, validate on generated schemas; invariant checker after every call: "
             "links, schema order, contiguity, sortedness, children hash table content, every search = scan; print/parse fixpoint; "
             "creation-order independence); oracles sorted-order and sibling-order against Python list models (lyd_merge of sources "
-            "with equal keys; ALL children of one parent: schema order, user-ordered instances moved by lyd_insert_after/before "
-            "incl. wrap-around, opaque nodes last, lyd_find_sibling_first/_val/_opaq_next = scan, with and without hash table).",
+            "with equal keys; for the children of one parent additionally lyd_find_sibling_first/_val/_opaq_next = scan and link "
+            "consistency, which Siblings.v does not model).",
     "note": "Modelled, not verified against C by proof: the Coq functions are hand transcriptions; T2 observes sibling order, tree "
             "shape/colours, metadata owner and find answers only through the driver. In the model the pool of recycled nodes is a "
             "counter (rb_iter_traversal itself is not modelled; lyds_merge_nodes3 uses its post-order), parent pointers / metadata "
-            "links are not represented (driver checker only). Outside Coq: everything about more than one schema node under a parent "
-            "(schema order, user-ordered lists, opaque nodes, children hash table: oracles only; the hash table itself is slice ht), "
+            "links are not represented (driver checker only). In Siblings.v values and hashes are not modelled (which node a search finds, the content "
+            "of the children hash table: oracles only; the table itself is slice ht), the existence of the table is a flag of the "
+            "operation, the placement inside a system-ordered (leaf-)list is taken from Sorted.v, and moves that involve an opaque "
+            "node are outside the theorems. Outside Coq: "
             "the ChildIdx/Edit layers of DESIGN.md C04, change of key/leaf-list values, diff apply, implicit nodes, validation. "
             "No C04 finding is open. Retired (fixed in /repo): implicit-toplevel-order 7ad8277, childidx-stale-after-change 007df2f, "
             "merge-dup-unsorted 07a2996, lyds-merge2-next-uninit cefb23b, dup-append-into-existing d989bef, dup-resort-from-third 03a093d.",
